@@ -9,6 +9,7 @@ mod wire;
 mod lang;
 mod rt;
 mod bkd;
+mod uid;
 
 pub fn hex(b: &[u8]) -> String {
     if b.is_empty() {
@@ -44,6 +45,7 @@ fn dispatch(cmd: &str, args: &[&str]) -> String {
         "BKD" => bkd::bkd(args),
         "RUN" => rt::run(args),
         "GETF" => rt::getf(args),
+        "UID" => uid::uid(args),
         _ => "BADCMD".to_string(),
     }
 }
